@@ -163,6 +163,64 @@ def repeated_calls(prefix: str = "C08") -> Optional[dict]:
     return None
 
 
+def none_results_and_opaque_annotations(prefix: str = "C08") -> Optional[dict]:
+    """(i) A body that returns None is a body that returned: the return validator judges None like any value.
+    (ii) An override replaces the annotation: where one is given, the annotation is never resolved - so annotations no
+    resolver can read (a forward reference, a Callable, a TypeVar) are fine under an override."""
+    import typing
+    from koda_validate import IntValidator, ListValidator, StringValidator
+    from koda_validate.signature import RETURN_OVERRIDE_KEY, InvalidArgsError, InvalidReturnError, validate_signature
+    from ..corr import drive
+    T = typing.TypeVar("T")
+    for is_async in (False, True):
+        for label, ret in (("int", int), ("List[int]", typing.List[int]), ("str", str)):
+            if is_async:
+                async def g(a):
+                    return None
+            else:
+                def g(a):  # type: ignore[misc]
+                    return None
+            g.__annotations__ = {"a": int, "return": ret}
+            try:
+                r = validate_signature(g)(1)
+                r = drive(r) if is_async else r
+                exc = None
+            except BaseException as e:  # noqa
+                r, exc = None, e
+            if type(exc) is not InvalidReturnError:
+                return {"signature": f"{prefix}:none-result", "what": f"{'async ' if is_async else ''}g(a: int) -> {label} whose body returns None: expected InvalidReturnError, "
+                                                                        f"ended with {exc!r} / returned {r!r}"}
+        for label, ann in (("a forward reference", "NotDefinedAnywhere"), ("Callable[[int], int]", typing.Callable[[int], int]), ("a TypeVar", T),
+                           ("Iterable[T]", typing.Iterable[T])):
+            ran: list = []
+            if is_async:
+                async def h(a, b):
+                    ran.append((a, b))
+                    return [1]
+            else:
+                def h(a, b):  # type: ignore[misc]
+                    ran.append((a, b))
+                    return [1]
+            h.__annotations__ = {"a": ann, "b": int, "return": ann}
+            try:
+                w = validate_signature(h, overrides={"a": StringValidator(), RETURN_OVERRIDE_KEY: ListValidator(IntValidator())})
+            except BaseException as e:  # noqa
+                return {"signature": f"{prefix}:override-replaces-annotation",
+                        "what": f"decorating h(a: <{label}>, b: int) -> <{label}> with overrides for a and the return value raised {e!r}"}
+            for args, want in ((("s", 2), None), ((5, 2), InvalidArgsError), (("s", "x"), InvalidArgsError)):
+                del ran[:]
+                try:
+                    r = w(*args)
+                    r = drive(r) if is_async else r
+                    exc = None
+                except BaseException as e:  # noqa
+                    r, exc = None, e
+                if (want is None and (exc is not None or r != [1])) or (want is not None and (type(exc) is not want or ran)):
+                    return {"signature": f"{prefix}:override-replaces-annotation",
+                            "what": f"h(a: <{label}>, b: int) with a StringValidator override for a, called with {args!r}: ended with {exc!r} / returned {r!r}, body runs {ran!r}"}
+    return None
+
+
 def parameter_names() -> Optional[dict]:
     """Which argument is checked by which validator depends on the parameter's kind and annotation, not on its
     *name*: parameters (and **kwargs entries) called self, cls, args, kwargs, return, _ are checked like any other."""
@@ -248,6 +306,9 @@ def run(tier: str, rng: random.Random, proof_ok: bool, oracle_fn=oracle, name="C
         rd = redecoration()
         if rd:
             violations.append({"kind": "oracle", **rd, "replay_case": {"redecoration": True}})
+        nr = none_results_and_opaque_annotations("C08")
+        if nr:
+            violations.append({"kind": "oracle", **nr, "replay_case": {"none_results": True}})
         rc_ = repeated_calls("C08")
         if rc_:
             violations.append({"kind": "oracle", **rc_, "replay_case": {"repeated_calls": True}})
@@ -339,6 +400,10 @@ def replay(path: str, oracle_fn=oracle) -> int:
     if not cj:
         print("replay file names a broken obligation, no input:", j.get("what"))
         return 1
+    if cj.get("none_results"):
+        r = none_results_and_opaque_annotations("C08")
+        print("property violated: " + r["what"] if r else "property holds for None results and overridden opaque annotations")
+        return 1 if r else 0
     if cj.get("repeated_calls"):
         r = repeated_calls("C08")
         print("property violated: " + r["what"] if r else "property holds for repeated calls of one decorated function")
